@@ -316,7 +316,10 @@ fn main() {
         let st = std::process::Command::new(&exe).arg("--case").arg(idx.to_string()).status().unwrap();
         std::process::exit(if st.success() { 0 } else { 1 });
     }
-    let selected: Vec<usize> = (0..all.len()).filter(|&i| tier == "thorough" || !all[i].thorough_only).collect();
+    // `loomcheck C13 <tier>`: the shared-cell harnesses only, summary on stdout for the C13 check
+    // (which decides "the update is computed from the content at the moment of the update" with them)
+    let for_c13 = args.get(1).map(|s| s.as_str()) == Some("C13");
+    let selected: Vec<usize> = (0..all.len()).filter(|&i| (tier == "thorough" || !all[i].thorough_only) && (!for_c13 || !all[i].cells.is_empty())).collect();
     // children in parallel (each is single-threaded under loom's scheduler)
     let results: Mutex<Vec<(usize, Result<Value, String>)>> = Mutex::new(Vec::new());
     let next = AtomicUsize::new(0);
@@ -363,6 +366,14 @@ fn main() {
             Err(e) => violations.push((*idx, e.clone())),
         }
     }
+    if for_c13 {
+        let vs: Vec<Value> = violations
+            .iter()
+            .map(|(idx, e)| json!({"name": all[*idx].name, "case_index": idx, "cells": all[*idx].cells.iter().map(|c| format!("{}: mut {} = {}", c.0, c.1, c.2)).collect::<Vec<_>>(), "setup": all[*idx].setup, "threads": all[*idx].threads.iter().map(|t| t.0).collect::<Vec<_>>(), "observed": e}))
+            .collect();
+        println!("SUMMARY {}", json!({"harnesses": selected.len(), "schedules": executions, "violations": vs}));
+        std::process::exit(0);
+    }
     let replay_dir = format!("{root}/replays/C16");
     let _ = std::fs::remove_dir_all(&replay_dir);
     for (n, (idx, e)) in violations.iter().enumerate() {
@@ -392,7 +403,7 @@ fn main() {
             "rule": "each harness is a loom model over the real interpreter: worker threads execute shared Code / Function values; every interleaving of their lock operations (DPOR; preemption bound where stated) is executed; the per-thread results and final cell contents must equal those of some sequential order of the same programs (computed by running the real interpreter sequentially in every order); loom reports deadlocks; a poisoned lock or a panic fails the execution",
         },
         "assumptions": [
-            "the cell's RwLock is the only shared mutable state and the crates contain no unsafe code, so lock operations are a sufficient set of scheduling points",
+            "scheduling points are the lock operations of cells (the crates contain no unsafe code); for harnesses whose runs share no cell every order of these operations across threads is explored (a world variable makes them conflict), so state shared outside cells shows as a difference from the result each run gives alone; code between two consecutive cell accesses of one thread is not interleaved",
             "loom does not model writer-preferring fairness of RwLock: deadlocks that need a queued writer between two recursive readers are not explored",
             "lazy_static first-use races are std::sync::Once's responsibility"
         ],
